@@ -349,6 +349,8 @@ func (mab *memoryAddrBook) ConsumePeerRecord(recordEnvelope *record.Envelope, tt
 	mab.mu.Lock()
 	defer mab.mu.Unlock()
 
+	mab.dropExpiredAddrsForPeerUnlocked(rec.PeerID, mab.clock.Now())
+
 	// ensure seq is greater than or equal to the last received
 	lastState, found := mab.signedPeerRecords[rec.PeerID]
 	if found && lastState.Seq > rec.Seq {
@@ -454,6 +456,23 @@ func (mab *memoryAddrBook) evictNearestExpiryUnconnectedForPeerUnlocked(p peer.I
 	return true
 }
 
+// dropExpiredAddrsForPeerUnlocked removes p's addrs that have already expired
+// but have not been garbage collected yet, so that mutations never observe
+// (and revive or inherit the TTL of) an addr that is logically gone. If that
+// leaves the peer without addrs its signed peer record goes too, as in gc.
+func (mab *memoryAddrBook) dropExpiredAddrsForPeerUnlocked(p peer.ID, now time.Time) {
+	dropped := false
+	for _, a := range mab.addrs.Addrs[p] {
+		if a.ExpiredBy(now) {
+			mab.addrs.Delete(a)
+			dropped = true
+		}
+	}
+	if dropped {
+		mab.maybeDeleteSignedPeerRecordUnlocked(p)
+	}
+}
+
 func (mab *memoryAddrBook) addAddrs(p peer.ID, addrs []ma.Multiaddr, ttl time.Duration) {
 	mab.mu.Lock()
 	defer mab.mu.Unlock()
@@ -474,7 +493,9 @@ func (mab *memoryAddrBook) addAddrsUnlocked(p peer.ID, addrs []ma.Multiaddr, ttl
 		return
 	}
 
-	exp := mab.clock.Now().Add(ttl)
+	now := mab.clock.Now()
+	mab.dropExpiredAddrsForPeerUnlocked(p, now)
+	exp := now.Add(ttl)
 	for _, addr := range addrs {
 		// Remove suffix of /p2p/peer-id from address
 		addr, addrPid := peer.SplitAddr(addr)
@@ -532,7 +553,9 @@ func (mab *memoryAddrBook) SetAddrs(p peer.ID, addrs []ma.Multiaddr, ttl time.Du
 
 	defer mab.maybeDeleteSignedPeerRecordUnlocked(p)
 
-	exp := mab.clock.Now().Add(ttl)
+	now := mab.clock.Now()
+	mab.dropExpiredAddrsForPeerUnlocked(p, now)
+	exp := now.Add(ttl)
 	for _, addr := range addrs {
 		addr, addrPid := peer.SplitAddr(addr)
 		if addr == nil {
@@ -586,7 +609,9 @@ func (mab *memoryAddrBook) UpdateAddrs(p peer.ID, oldTTL time.Duration, newTTL t
 
 	defer mab.maybeDeleteSignedPeerRecordUnlocked(p)
 
-	exp := mab.clock.Now().Add(newTTL)
+	now := mab.clock.Now()
+	mab.dropExpiredAddrsForPeerUnlocked(p, now)
+	exp := now.Add(newTTL)
 	for _, a := range mab.addrs.Addrs[p] {
 		if oldTTL == a.TTL {
 			if newTTL == 0 {
